@@ -114,7 +114,7 @@ class RefInterp:
                 out.vars = copy.deepcopy(self.default_vars)
                 return out
             if len(segs) == 2 and isinstance(segs[1], TransformQuerySegment):
-                return self._run_actions(list(segs[1].query), segs[1].filename, data, extra)
+                return self._run_actions(list(segs[1].query), segs[1].filename, data, extra, rooted=True)
             raise ValueError("unsupported query shape")
         seg = self._segment(query)
         return self._run_actions(list(seg.query), seg.filename, input_value, extra)
@@ -141,7 +141,9 @@ class RefInterp:
             return BOOL_WORDS.get(str(raw).lower(), False)
         return raw
 
-    def _run_actions(self, actions, filename, input_value, extra):
+    def _run_actions(self, actions, filename, input_value, extra, rooted=False):
+        # rooted: input_value is the content of the query's resource segment (part of the query, hence also of the
+        # prefix a relative link is applied to); otherwise it is a value injected by the caller
         from liquer.parser import StringActionParameter, LinkActionParameter
 
         out = Ok()
@@ -166,13 +168,14 @@ class RefInterp:
                 elif isinstance(prm, LinkActionParameter):
                     link = prm.link
                     link_queries.append(link.encode())
-                    if link.absolute or i == 0:
+                    if link.absolute or (i == 0 and not rooted):
                         r = self._run(link)
                     else:
                         lseg = self._segment(link)
                         # a relative link denotes the query 'prefix/link', evaluated as a query in its own right
                         # (an input value injected into the outer evaluation is not part of that query)
-                        r = self._run_actions(list(actions[:i]) + list(lseg.query), lseg.filename, None, None)
+                        r = self._run_actions(list(actions[:i]) + list(lseg.query), lseg.filename,
+                                              input_value if rooted else None, None, rooted=rooted)
                     if not r.ok:
                         return Fail([("action", i), ("arg", j)] + r.path, "link", repr(r))
                     args.append(r.value)
